@@ -196,8 +196,9 @@ def _own_nodes(fnode):
 class AmpExecutor(readfile.ReadFileExecutor):
     """Adds the amplification obligation at every repetition with a symbolic count."""
 
-    def __init__(self, *a, only_repeat_helpers=False, helper_arg_sorts=None, **k):
+    def __init__(self, *a, only_repeat_helpers=False, helper_arg_sorts=None, header=None, **k):
         super().__init__(*a, **k)
+        self.header = header                                # 7z header-parser mode (contracts/c12_7zheader.py)
         self.only_repeat_helpers = only_repeat_helpers      # inline_local only for helpers that contain a repetition
         self.helper_arg_sorts = helper_arg_sorts            # inline_local only for helpers that receive an object of these sorts
 
@@ -238,6 +239,85 @@ class AmpExecutor(readfile.ReadFileExecutor):
 
     def e_DictComp(self, n, st):
         return self._comprehension(n, st, super().e_DictComp)
+
+    # ---- 7z header-parser mode: methods of the object under verification (contracts/c12_7zheader.py)
+    def obj_method(self, st, obj, name, args, kwargs, node):
+        if self.header is None:
+            return super().obj_method(st, obj, name, args, kwargs, node)
+        from contracts import c12_7zheader
+        o = st.obj(obj.ref)
+        q = f"{o.cls}.{name}"
+        if self.reg.get(f"{self.module.rel}::{q}") is not None:
+            # a method under contract with a count parameter: an argument that is a size of an object that already exists meets the
+            # requirement by the round-5 rule (`size_only` on the real AST of the call site)
+            cur = self.cur_fn_stack[-1] if self.cur_fn_stack else None
+            arg0 = node.args[0] if isinstance(node, ast.Call) and node.args else None
+            flag = False
+            try:
+                flag = bool(cur is not None and arg0 is not None and not isinstance(arg0, ast.Constant) and size_only(arg0, cur, self.module))
+            except RecursionError:
+                flag = False
+            if flag:
+                st.ghost["c12_count_is_a_size"] = True
+            try:
+                res = super().obj_method(st, obj, name, args, kwargs, node)
+            finally:
+                st.ghost.pop("c12_count_is_a_size", None)
+            for (s_, _v) in res:
+                s_.ghost.pop("c12_count_is_a_size", None)
+            return res
+        r = c12_7zheader.method_call(self, st, VFunc("repo", self.module.rel, q), [obj] + list(args), kwargs, node)
+        if r is not None:
+            return r
+        return super().obj_method(st, obj, name, args, kwargs, node)
+
+    def call_method(self, st, obj, name, args, kwargs, node):
+        # header mode: the object under verification after a loop cut / an unknown call is still an instance of its class
+        if self.header is not None and isinstance(obj, VRef) and st.obj(obj.ref).kind == "unk" and st.obj(obj.ref).cls and \
+                f"{st.obj(obj.ref).cls}.{name}" in self.module.functions:
+            return self.obj_method(st, obj, name, args, kwargs, node)
+        return super().call_method(st, obj, name, args, kwargs, node)
+
+    def havoc_loop_state(self, st, body, spec):
+        # header mode: the object under verification keeps its class and -- when nothing in the loop body (or in the methods of the
+        # class it calls, three levels) stores to the stream attribute -- the binding of its stream; the position is anywhere
+        keep = None
+        sv = None
+        if self.header is not None:
+            try:
+                from contracts import c12_7zheader as H
+                sv = st.lookup("self")
+                attr = self.header["stream"]
+                o = st.obj(sv.ref) if isinstance(sv, VRef) else None
+                if o is not None and o.kind == "obj" and isinstance(o.data, dict) and isinstance(o.data.get(attr), VExt):
+                    stores = any(isinstance(n, ast.Attribute) and n.attr == attr and isinstance(n.ctx, (ast.Store, ast.Del)) for b in body for n in ast.walk(b))
+                    for b in body:
+                        for n in ast.walk(b):
+                            if isinstance(n, ast.Call) and isinstance(n.func, ast.Attribute) and isinstance(n.func.value, ast.Name) and n.func.value.id == "self":
+                                stores = stores or H.stores_attr(self.module, f"{o.cls}.{n.func.attr}", attr)
+                            elif isinstance(n, ast.Call) and any(isinstance(a, ast.Name) and a.id == "self" for a in list(n.args) + [k.value for k in n.keywords]):
+                                stores = True          # the object is handed to something else
+                    if not stores:
+                        keep = (o.cls, o.data[attr])
+            except Exception:  # noqa
+                keep = None
+        r = super().havoc_loop_state(st, body, spec)
+        if keep is not None and isinstance(sv, VRef):
+            from contracts import common
+            st.heap[sv.ref] = HeapObj("obj", {self.header["stream"]: keep[1]}, keep[0], False)
+            if st.lookup("self") is not sv:
+                st.frame.env["self"] = sv
+            p_ = z3.Int(fresh_name("pos_in_loop"))
+            st.assume(p_ >= 0)
+            st.ghost[common.pos_key(keep[1])] = p_
+        return r
+
+    def try_concrete_while(self, s, st, limit=4096):
+        # header mode: `while True:` loops that leave by a `break` on a value read from the stream are cut like any symbolic loop
+        # (exact unrolling of a loop whose exit is symbolic forks at every step)
+        if self.header is not None:
+            return None
+        return super().try_concrete_while(s, st, limit)
 
     # ---- local helpers executed in place; a helper the model breaks on stays an unknown call
     def call(self, st, f, args, kwargs, node):
@@ -365,6 +445,9 @@ class AmpExecutor(readfile.ReadFileExecutor):
                     nt = ops.int_term(n) if isinstance(n, VInt) else z3.Int(fresh_name("int_of_unknown"))
                     srcs, unknown_src = _attr_sources(nt)
                     goal = nt <= REPEAT_CAP
+                    if self.header is not None:
+                        from contracts import c12_7zheader
+                        goal = c12_7zheader.bound_goal(self, nt)
                     if unknown_src and not srcs:
                         # a count without input provenance in the model: decide on the real AST whether it is made of sizes of
                         # existing objects only (then the repetition is bounded by what is already in memory)
@@ -525,7 +608,10 @@ def contracts(reg):
     for c in C07.contracts(reg):
         if c.target.startswith(C07.ROUTER):
             c.assumed = True
-            c.note = "verified by the C07 pack"
+            # call-site view only: the SAME contract object class is verified on the real body in this run by the EXTRA task
+            # `conform[router.py::<fn>]` (contracts/c12_conform.py), so the verified contract implies the applied one trivially;
+            # a function whose conformance is not proved in the run stays on the assumed list of the evidence
+            c.note = "call-site view; verified in the C12 run by contracts/c12_conform.py (same contract as pack C07)"
             out.append(c)
     # (after C07.contracts: it re-installs the shared read_file models)
     reg.method_models[("BytesIO", "seek")] = m_seek2
@@ -680,6 +766,14 @@ def contracts(reg):
             ))
             EXECUTOR_KW[f"{c12_sevenzip.SZ}::{q}"] = {"abstract": False, "inline_calls": False, "inline_local": True}
     except Exception:  # noqa  (a pack's contracts() must not raise: the native scope decides then)
+        pass
+    # ---- 7z header parser: allocations per declared count are bounded by a constant or by the header (contracts/c12_7zheader.py)
+    try:
+        from contracts import c12_7zheader
+        for c, kw in c12_7zheader.contracts(reg, loader.module(c12_7zheader.SZ)):
+            out.append(c)
+            EXECUTOR_KW[c.target] = kw
+    except Exception:  # noqa
         pass
     return out
 
@@ -873,8 +967,8 @@ def _native_scope(which):
 
 
 def _extra():
-    from contracts import c12_cost
-    return [_native_scope("explicit-limits"), _native_scope("repeat-attribute-classes"), _native_scope("zip-bomb-classes"), _native_scope("7z-declared-sizes"), _cost("guard_exemptions"), _cost("sevenzip_collisions"), _cost("rescan_obligations"), policy, _cost("self_suffix_obligations"), _cost("xml_policy"), _cost("nested_scan_obligations")] + [_carve_task(k) for k in c12_cost.carve_tasks()]
+    from contracts import c12_cost, c12_conform
+    return c12_conform.extras() + [_native_scope("explicit-limits"), _native_scope("repeat-attribute-classes"), _native_scope("zip-bomb-classes"), _native_scope("7z-declared-sizes"), _cost("guard_exemptions"), _cost("sevenzip_collisions"), _cost("rescan_obligations"), policy, _cost("self_suffix_obligations"), _cost("xml_policy"), _cost("nested_scan_obligations")] + [_carve_task(k) for k in c12_cost.carve_tasks()]
 
 
 EXTRA = _extra()
@@ -912,7 +1006,14 @@ def known_findings(kf, violations, repo, tier):
 
 
 TRUSTED = ["defusedxml forbids entity expansion", "stat().st_size is the size read_file would read"]
-ASSUMED_MODELS = ["pathlib.Path.stat/st_size", "open()", "io.BytesIO.seek/tell (position, SEEK_END = size)", "router contracts (C07)"]
+# (the four router functions are no longer listed here: each is verified in the run by `conform[router.py::<fn>]`; one that is not
+#  proved shows up in `assumed_contracts` under its own target, see pyvc/check.py `verified_assumed`)
+ASSUMED_MODELS = ["pathlib.Path.stat/st_size", "open()", "io.BytesIO.seek/tell (position, SEEK_END = size)",
+                  "sevenzip.py::SevenZipReader._read_boolean_vector: its requires (count <= max(REPEAT_CAP, header size)) is an obligation (call-pre#..) at the three call "
+                  "sites in _parse_files_info (one of them met by the size-of-an-existing-object rule); the call sites in _parse_pack_info / _parse_unpack_info / "
+                  "_parse_substreams_info / _skip_substreams_info are NOT checked (those parsers are not under contract)",
+                  "sevenzip.py header parsers: a call of another SevenZipReader method is modelled as 'returns anything (an arbitrary int when annotated -> int), raises "
+                  "anything, stream position anywhere, stream binding kept iff no store to it in the callee (AST, three levels)'"]
 BOUNDED = ["native-scope#explicit-limits, native-scope#zip-bomb-classes, native-scope#7z-declared-sizes and native-scope#repeat-attribute-classes: directed native runs of the replayer on every check (never counted as proved)"]
 ASSUMPTIONS = ["peak memory and run time as quantities are not decided (not expressible as contracts); what is decided are the structural causes of super-linear cost: "
                "unbounded repeat expansion (amp-bounded#repeat-site), overlapping carving of a scanned buffer (amp-bounded#carve-while-k: copies of different iterations "
